@@ -96,6 +96,12 @@ class XyeEngine(Engine):
         scn = self._gen_one(rng, tier)
         if rng.random() < 0.1:
             scn["locale"] = "C"  # default text encoding of open() is strict ASCII
+        if scn["kind"] == "roundtrip" and rng.random() < 0.15:
+            other = self._gen_one(rng, tier)
+            if other["kind"] == "roundtrip" and other["n"] <= 200:
+                other.update(sink="mem", faults={"mode": "none"}, fresh_process=False)
+                scn["interleave"] = {"frac": rng.random(), "other": other,
+                                     "where": rng.choice(["line", "write", "write"])}
         if scn["kind"] == "roundtrip" and rng.random() < 0.35:
             # the same target is written again with other data (and loaded again)
             second = self._gen_one(rng, tier)
@@ -431,6 +437,8 @@ class XyeEngine(Engine):
             return
         self._last_target = target
         self._load_and_compare(scn, ctx, target, "fault-free")
+        if scn.get("interleave") and not ctx.violations:
+            self._interleaved(scn, ctx)
         writes = target.sim_writes if scn["sink"] == "mem" else None
         mode = scn["faults"]["mode"]
         if mode == "enum_writes" and scn["sink"] == "mem":
@@ -476,6 +484,53 @@ class XyeEngine(Engine):
                             kind="retry_failed")
             else:
                 self._load_and_compare(scn, ctx, self._target(scn, ctx), "retry")
+
+    def _interleaved(self, scn, ctx):
+        """Two callers save two data sets to two targets; the second caller's whole save runs at
+        a scenario-chosen line boundary inside the first caller's save_xye."""
+        import scippneutron.io.xye as xye
+
+        a = dict(scn, sink="mem")
+        b = dict(scn["interleave"]["other"], sink="mem")
+        prefixes = (xye.__file__,)
+        at_write = scn["interleave"].get("where") == "write"
+        counter = seams.Preemptor(prefixes, {})
+        csink = seams.SimStringIO(ctx=ctx)
+        if counter.run(lambda: self._save(a, ctx, csink, label="save_counting_pass")) is not None:
+            return
+        total = csink.sim_writes if at_write else counter.ordinal
+        at = min(total - 1, int(scn["interleave"]["frac"] * total)) if total else 0
+        tb = seams.SimStringIO(ctx=ctx)
+        state = {}
+        kind = "preempt_in_write" if at_write else "preempt_in_save"
+        ctx.fault_configured(kind)
+
+        def cb(frame):
+            where = "write" if at_write else frame.f_code.co_name
+            ctx.log("preempt", where, at, total)
+            ctx.site("preempt@xye:" + where)
+            state["exc"] = self._save(b, ctx, tb, label="save_other_caller")
+            state["ran"] = True
+
+        if at_write:
+            # the first caller blocks in its at-th write(); the second caller's save runs meanwhile
+            ta = seams.SimStringIO(ctx=ctx, yield_at={at: cb})
+            ea = self._save(a, ctx, ta, label="save_preempted")
+        else:
+            ta = seams.SimStringIO(ctx=ctx)
+            ea = seams.Preemptor(prefixes, {at: cb}).run(lambda: self._save(a, ctx, ta, label="save_preempted"))
+        if not state.get("ran"):
+            ctx.probe("preemption_point_not_reached")
+            return
+        ctx.fault_fired(kind)
+        ctx.probe("two_saves_interleaved")
+        for who, e in (("pre-empted", ea), ("pre-empting", state.get("exc"))):
+            if e is not None:
+                ctx.violate("save_raised", f"[interleaved at {at}/{total}] the {who} caller's save_xye raised {e}",
+                            kind="interleaved_save_raised", exc=e.name)
+                return
+        self._load_and_compare(a, ctx, ta, f"interleaved, pre-empted caller ({at}/{total})")
+        self._load_and_compare(b, ctx, tb, "interleaved, pre-empting caller")
 
     def _unencodable_here(self, scn, ctx, exc, locale=None) -> bool:
         """In a process whose default text encoding is ASCII (scenario knob locale=C) a file
@@ -599,6 +654,10 @@ class XyeEngine(Engine):
         if s.get("fresh_process"):
             c = copy.deepcopy(s)
             c["fresh_process"] = False
+            yield c
+        if s.get("interleave"):
+            c = copy.deepcopy(s)
+            del c["interleave"]
             yield c
         if s.get("layout", "plain") != "plain":
             c = copy.deepcopy(s)
